@@ -173,6 +173,9 @@ func RunSafety(r sim.Src, mons []*sim.Mon, keepLog bool, sh Shape) *sim.World {
 		TimePerBlock: []time.Duration{time.Second, 15 * time.Second}[r.Intn("tpb", 2)],
 		TsIncrement:  1_000_000, Epoch: epoch0,
 	}
+	if r.Intn("dynblocktime", 5) == 0 {
+		cfg.MaxTimePerBlock = cfg.TimePerBlock * time.Duration(2+r.Intn("dynratio", 3)) // the maximum-block-time extension is configured
+	}
 	if r.Intn("saltedsigs", 2) == 1 {
 		cfg.SaltedSigs = true // signing twice gives two different valid signatures, as with the reference ECDSA
 	}
@@ -185,6 +188,9 @@ func RunSafety(r sim.Src, mons []*sim.Mon, keepLog bool, sh Shape) *sim.World {
 	}
 	if cfg.SaltedSigs {
 		w.Stat("salted_signatures")
+	}
+	if cfg.MaxTimePerBlock > 0 {
+		w.Stat("dynamic_block_time")
 	}
 	w.FaultBudget = budget
 	heights := 1 + r.Intn("heights", max(1, sh.MaxHeights))
